@@ -1,11 +1,12 @@
 SPECIFICATION Spec
 CONSTANTS
-  Layouts = {"two-plain", "numa-plain", "two-pods"}
+  Layouts = {"two-plain", "numa-plain", "two-pods", "one-down"}
   WlSets = {"none", "one-bound", "bound-unbound", "half-and-unbound"}
   Strategies = {"AUTO", "FILL", "EACH", "GLOBAL"}
   Counts = {1, 2, 3}
   Reqs = {"b", "u", "h", "big"}
   Deltas = {"cpu+", "cpu-", "mem+", "mem-", "keep", "unbind", "bind", "huge"}
+  Includes <- IncludesThorough
   Modes = {"fault", "crash"}
 CONSTRAINT Emit
 CHECK_DEADLOCK FALSE
